@@ -254,6 +254,31 @@ func GenModel(rng *rand.Rand, o GenOpts) *Model {
 					r.NoMeta = true
 				}
 			}
+			if o.Large && rng.Intn(6) == 0 {
+				// an operator with more than a dozen operands (sort and hoist routines change behaviour with size);
+				// the direct assignment stands anywhere unless the model must be a parser image
+				n := 13 + rng.Intn(15)
+				cs := []*U{}
+				for k := 0; k < n; k++ {
+					cs = append(cs, genLeafND(rng, relsForRefs))
+				}
+				if rng.Intn(4) != 0 {
+					pos := 0
+					if !o.DSLValid {
+						pos = rng.Intn(n)
+					}
+					cs[pos] = This()
+				}
+				if rng.Intn(2) == 0 {
+					r.Rewrite = Union(cs...)
+				} else {
+					r.Rewrite = Inter(cs...)
+				}
+				r.Restr, r.NoMeta = nil, false
+				if r.Rewrite.CountThis() > 0 {
+					r.Restr = genRestr(rng, types, condNames, o.Plain)
+				}
+			}
 			t.Rels = append(t.Rels, r)
 		}
 		if o.DSLValid {
